@@ -83,8 +83,8 @@ MUTANTS = [
     # (removing the explicit dimensionality test of _add_sub is an EQUIVALENT mutant for multiplicative quantities: every
     #  branch that needs a conversion raises the same error -- it survives, correctly; the test is inverted instead)
     ("addsub-inverted-dimension-check", "C03", "pint/facets/plain/quantity.py",
-     "        if not self.dimensionality == other.dimensionality:\n            raise DimensionalityError(\n                self._units, other._units, self.dimensionality",
-     "        if self.dimensionality == other.dimensionality:\n            raise DimensionalityError(\n                self._units, other._units, self.dimensionality",
+     "            return self.__class__(magnitude, units)\n\n        if not self.dimensionality == other.dimensionality:\n",
+     "            return self.__class__(magnitude, units)\n\n        if self.dimensionality == other.dimensionality:\n",
      r"_add_sub.*(raises|DimensionalityError)"),
     ("muldiv-units-of-self-only", "C03", "pint/facets/plain/quantity.py",
      "        units = units_op(new_self._units, other._units)\n\n        return self.__class__(magnitude, units)\n\n    def __imul__",
